@@ -9,6 +9,7 @@ import (
 	"math/rand"
 	"strconv"
 	"strings"
+	"sync"
 	"time"
 
 	"go.brendoncarroll.net/p2p"
@@ -463,6 +464,402 @@ func keStream(r *rand.Rand, n int, tier string, o *hx.Out) {
 	}
 }
 
+// keOracle restates C02/C03/C05/C06/C07 directly on the real sessions and channels (no model involved).
 func keOracle(r *rand.Rand, n int, tier string, infile string) (cases int, fails []string) {
-	return 1, nil
+	bad := func(f string, a ...any) {
+		if len(fails) < 30 {
+			fails = append(fails, fmt.Sprintf(f, a...))
+		}
+	}
+	base := time.Unix(1_700_000_000, 0)
+	newSess := func(init bool, key int, t int) *p2pke.Session {
+		return p2pke.NewSession(p2pke.SessionConfig{Registry: x509.DefaultRegistry(), PrivateKey: keKeys[key], IsInit: init,
+			Now: base.Add(time.Duration(t) * time.Second), RejectAfter: 1e6 * time.Hour, Logger: zap.NewNop()})
+	}
+	now := base.Add(time.Hour)
+	// (a) C06 + (b) C02 on one honest pair plus an unrelated pair
+	pairCase := func() {
+		cases++
+		var hist []string
+		I, R := newSess(true, 0, 1), newSess(false, 1, 2)
+		I2, R2 := newSess(true, 2, 3), newSess(false, 0, 4)
+		var pool [][]byte
+		add := func(b []byte) {
+			if len(b) > 0 {
+				pool = append(pool, append([]byte{}, b...))
+			}
+		}
+		add(I.Handshake(nil))
+		add(I2.Handshake(nil))
+		genuineOnly := r.Intn(2) == 0 // C06: only the pair's own genuine messages circulate; otherwise C02: anything goes
+		keyOf := map[string]string{"I": "0", "R": "1", "I2": "2", "R2": "0"}
+		sentBy := map[string]string{} // plaintext -> key index of the sending session
+		sent := map[string]bool{}     // plaintexts handed to Send, per direction tag
+		got := map[string]int{}       // plaintext -> times delivered
+		counters := map[string]bool{} // session tag + header counter of emitted data
+		deliver := func(tag string, s *p2pke.Session, m []byte) {
+			hsBefore := s.VerifHsIndex()
+			isApp, out, err := s.Deliver(nil, m, now)
+			if s.VerifHsIndex() < hsBefore {
+				bad("C06 session %s regressed from hsIndex %d to %d history=%v", tag, hsBefore, s.VerifHsIndex(), hist)
+			}
+			if err == nil && isApp {
+				got[tag+string(out)]++
+				if got[tag+string(out)] > 1 {
+					bad("C02 plaintext %x delivered twice to %s history=%v", out, tag, hist)
+				}
+				if k, ok := sentBy[string(out)]; !ok || k != keyIndex(s.RemoteKey()) {
+					bad("C02 %s (remote key %s) delivered plaintext %q that was sent by key %q (ok=%v) history=%v", tag, keyIndex(s.RemoteKey()), out, k, ok, hist)
+				}
+			} else if err == nil && !isApp {
+				add(out)
+			}
+		}
+		send := func(tag string, s *p2pke.Session, k int) {
+			p := append([]byte("MARKER-"+tag+"-"), byte(k), byte(k>>8))
+			out, err := s.Send(nil, p, now)
+			if err != nil {
+				return
+			}
+			sent[tag+string(p)] = true
+			sentBy[string(p)] = keyOf[tag]
+			if bytes.Contains(out, []byte("MARKER-")) {
+				bad("C02 plaintext appears on the transport: session %s", tag)
+			}
+			c := binary.BigEndian.Uint32(out)
+			if c < 16 || counters[tag+strconv.Itoa(int(c))] {
+				bad("C02 session %s emitted data under header counter %d (reused or inside the handshake range) history=%v", tag, c, hist)
+			}
+			counters[tag+strconv.Itoa(int(c))] = true
+			add(out)
+		}
+		sess := map[string]*p2pke.Session{"I": I, "R": R, "I2": I2, "R2": R2}
+		tags := []string{"I", "R", "I", "R", "I2", "R2"}
+		if genuineOnly {
+			tags = []string{"I", "R"}
+			pool = pool[:1]
+		}
+		steps := r.Intn(40)
+		for k := 0; k < steps; k++ {
+			tag := tags[r.Intn(len(tags))]
+			switch x := r.Intn(10); {
+			case x < 6 && len(pool) > 0:
+				i := r.Intn(len(pool))
+				if r.Intn(2) == 0 {
+					i = len(pool) - 1 - r.Intn(min(3, len(pool)))
+				}
+				m := pool[i]
+				if !genuineOnly && r.Intn(8) == 0 { // bit flip / truncation by the adversary
+					m = append([]byte{}, m...)
+					if r.Intn(2) == 0 && len(m) > 5 {
+						m[4+r.Intn(len(m)-4)] ^= 1 << uint(r.Intn(8))
+					} else {
+						m = m[:r.Intn(len(m)+1)]
+					}
+				}
+				hist = append(hist, fmt.Sprintf("deliver %s #%d", tag, i))
+				deliver(tag, sess[tag], m)
+			case x < 8:
+				hist = append(hist, "send "+tag)
+				send(tag, sess[tag], k)
+			default:
+				a, b := sess[tag].Handshake(nil), sess[tag].Handshake(nil)
+				if !bytes.Equal(a, b) {
+					bad("C06 Handshake() of %s is not idempotent", tag)
+				}
+				add(a)
+			}
+		}
+		if !genuineOnly {
+			return
+		}
+		// C06 completion: each side's current handshake message, in sequence, twice
+		for round := 0; round < 2; round++ {
+			if m := I.Handshake(nil); len(m) > 0 {
+				deliver("R", R, m)
+			}
+			if m := R.Handshake(nil); len(m) > 0 {
+				deliver("I", I, m)
+			}
+		}
+		if !I.IsReady() || !R.IsReady() {
+			bad("C06 after delivering each side's handshake message once more in sequence: initiator ready=%v (hs %d) responder ready=%v (hs %d) history=%v",
+				I.IsReady(), I.VerifHsIndex(), R.IsReady(), R.VerifHsIndex(), hist)
+			return
+		}
+		for _, dir := range [][2]string{{"I", "R"}, {"R", "I"}} {
+			p := []byte("final-" + dir[0])
+			out, err := sess[dir[0]].Send(nil, p, now)
+			if err != nil {
+				bad("C06 %s cannot send after completion: %v history=%v", dir[0], err, hist)
+				continue
+			}
+			isApp, pt, err := sess[dir[1]].Deliver(nil, out, now)
+			if err != nil || !isApp || !bytes.Equal(pt, p) {
+				bad("C06 data from %s does not arrive at %s after completion (isApp=%v err=%v header counter %d) history=%v", dir[0], dir[1], isApp, err, binary.BigEndian.Uint32(out), hist)
+			}
+		}
+		if rk := I.RemoteKey(); keyIndex(rk) != "1" {
+			bad("C03 initiator reports remote key %s, the responder's key is 1", keyIndex(rk))
+		}
+		if rk := R.RemoteKey(); keyIndex(rk) != "0" {
+			bad("C03 responder reports remote key %s, the initiator's key is 0", keyIndex(rk))
+		}
+	}
+	// (c) C03: an adversary holding key 3 replays / splices a victim's claim with its own ephemeral
+	spoofCase := func() {
+		cases++
+		victim := newSess(true, 0, 1)
+		vhello := victim.Handshake(nil)
+		adv := newSess(true, 3, 2)
+		ahello := adv.Handshake(nil)
+		spliced := append(append([]byte{}, ahello[:36]...), vhello[36:]...) // adversary ephemeral + victim's signed claim
+		R := newSess(false, 1, 3)
+		_, resp, err := R.Deliver(nil, spliced, now)
+		if err != nil {
+			return
+		}
+		// the adversary knows its ephemeral's secret: let its own session continue the handshake
+		_, done, err := adv.Deliver(nil, resp, now)
+		if err == nil && len(done) > 0 {
+			R.Deliver(nil, done, now)
+		}
+		for k := 0; k < 4; k++ {
+			if m := adv.Handshake(nil); len(m) > 0 {
+				R.Deliver(nil, m, now)
+			}
+		}
+		if (R.IsReady() || R.VerifCanSend() || R.VerifCanReceive()) && keyIndex(R.RemoteKey()) == "0" {
+			bad("C03 a party holding only key 3 brought a responder to usable with the victim's key 0 as its remote key")
+		}
+	}
+	// (d) C05/C07 on real channels driven by the harness (timers detached)
+	type ch struct {
+		c    *p2pke.Channel
+		sent [][]byte
+		app  [][]byte
+	}
+	newChan := func(key int, accept func(int) bool) *ch {
+		k := &ch{}
+		k.c = p2pke.NewChannel(p2pke.ChannelConfig{Registry: x509.DefaultRegistry(), PrivateKey: keKeys[key], Logger: zap.NewNop(),
+			Send:             func(b []byte) { k.sent = append(k.sent, append([]byte{}, b...)) },
+			AcceptKey:        func(pk *x509.PublicKey) bool { i, _ := strconv.Atoi(keyIndex(*pk)); return accept(i) },
+			KeepAliveTimeout: 1e5 * time.Hour, HandshakeBackoff: 1e5 * time.Hour, RekeyAfterTime: 1e5 * time.Hour, RejectAfterTime: 1e5 * time.Hour})
+		k.c.VerifDetachTimers()
+		return k
+	}
+	pump := func(a, b *ch, rounds int) {
+		for i := 0; i < rounds; i++ {
+			out := a.sent
+			a.sent = nil
+			for _, m := range out {
+				if pt, err := b.c.Deliver(nil, m); err == nil && pt != nil {
+					b.app = append(b.app, pt)
+				}
+			}
+			out = b.sent
+			b.sent = nil
+			for _, m := range out {
+				if pt, err := a.c.Deliver(nil, m); err == nil && pt != nil {
+					a.app = append(a.app, pt)
+				}
+			}
+		}
+	}
+	trySend := func(k *ch, p []byte) error {
+		ctx, cf := context.WithCancel(context.Background())
+		cf()
+		return k.c.Send(ctx, p2p.IOVec{p})
+	}
+	establish := func(a, b *ch) {
+		trySend(a, []byte("x"))
+		a.c.VerifOnRekey()
+		a.c.VerifOnHandshake()
+		pump(a, b, 3)
+	}
+	chanCase := func() {
+		cases++
+		rejectSide := r.Intn(3) // 0: nobody rejects, 1: initiator rejects, 2: responder rejects
+		A := newChan(0, func(k int) bool { return rejectSide != 1 })
+		B := newChan(1, func(k int) bool { return rejectSide != 2 })
+		defer A.c.Close()
+		defer B.c.Close()
+		lossy := r.Intn(2) == 0
+		trySend(A, []byte("x"))
+		A.c.VerifOnRekey()
+		A.c.VerifOnHandshake()
+		if lossy { // the final handshake message is lost: B completes, A is completed by data
+			out := A.sent
+			A.sent = nil
+			for _, m := range out {
+				B.c.Deliver(nil, m)
+			}
+			out = B.sent
+			B.sent = nil
+			for _, m := range out {
+				A.c.Deliver(nil, m)
+			}
+			out = A.sent
+			A.sent = nil
+			for _, m := range out {
+				B.c.Deliver(nil, m)
+			}
+			B.sent = nil // RespDone lost
+			if trySend(B, []byte("from-B")) == nil {
+				pump(B, A, 1)
+			}
+		} else {
+			pump(A, B, 3)
+		}
+		slotsA, slotsB := A.c.VerifSlots(), B.c.VerifSlots()
+		if rejectSide == 0 {
+			if !slotsA[1].Present || !slotsB[1].Present {
+				bad("C07 channels did not establish (lossy=%v): A slots %+v B slots %+v", lossy, slotsA, slotsB)
+				return
+			}
+			if slotsA[2].Present && slotsA[2].Ready || slotsB[2].Present && slotsB[2].Ready {
+				bad("C07 a ready session sits in the prospective slot (lossy=%v)", lossy)
+			}
+			if r.Intn(2) == 0 { // sometimes B has not received any data yet when A restarts
+				if trySend(A, []byte("from-A")) != nil {
+					bad("C07 Send on A blocks although a session is established (lossy=%v)", lossy)
+				}
+				pump(A, B, 1)
+			}
+			// restart of A at this point: a fresh channel with the same key
+			A2 := newChan(0, func(int) bool { return true })
+			defer A2.c.Close()
+			time.Sleep(time.Millisecond)
+			establish(A2, B)
+			if trySend(A2, []byte("after-restart")) != nil {
+				bad("C07 after the peer restarted, three reliable round trips do not re-establish the channel: A' slots %+v B slots %+v", A2.c.VerifSlots(), B.c.VerifSlots())
+			} else {
+				n0 := len(B.app)
+				pump(A2, B, 1)
+				if len(B.app) != n0+1 {
+					bad("C07 data sent after the restart is not delivered")
+				}
+			}
+			if keyIndex(B.c.RemoteKey()) != "0" {
+				bad("C05 channel B's remote key changed to %s", keyIndex(B.c.RemoteKey()))
+			}
+			// a different key knocking on B must not disturb it
+			C := newChan(2, func(int) bool { return true })
+			defer C.c.Close()
+			establish(C, B)
+			if keyIndex(B.c.RemoteKey()) != "0" {
+				bad("C05 a handshake from key 2 changed channel B's remote key to %s", keyIndex(B.c.RemoteKey()))
+			}
+			if s := C.c.VerifSlots(); s[1].Present {
+				bad("C05 channel B established a session with a second key (C has a current session)")
+			}
+		} else {
+			rej, other := A, B
+			if rejectSide == 2 {
+				rej, other = B, A
+			}
+			if s := rej.c.VerifSlots(); s[0].Present || s[1].Present {
+				bad("C05 a channel whose predicate rejects the peer key holds an established session (rejecting side %d, lossy=%v)", rejectSide, lossy)
+			}
+			if len(rej.app) > 0 {
+				bad("C05 a channel whose predicate rejects the peer key delivered application data (rejecting side %d, lossy=%v)", rejectSide, lossy)
+			}
+			if rk := rej.c.RemoteKey(); !rk.IsZero() {
+				bad("C05 a channel whose predicate rejects the peer key reports a remote key")
+			}
+			if trySend(rej, []byte("secret")) == nil {
+				bad("C05 a channel whose predicate rejects the peer key encrypted application data to it")
+			}
+			_ = other
+		}
+	}
+	// restart while the first handshake is half open: B has only seen the first InitHello
+	halfOpenCase := func() {
+		cases++
+		A := newChan(0, func(int) bool { return true })
+		B := newChan(1, func(int) bool { return true })
+		defer A.c.Close()
+		defer B.c.Close()
+		trySend(A, []byte("x"))
+		A.c.VerifOnRekey()
+		A.c.VerifOnHandshake()
+		for _, m := range A.sent {
+			B.c.Deliver(nil, m)
+		}
+		B.sent = nil
+		time.Sleep(time.Millisecond)
+		A2 := newChan(0, func(int) bool { return true })
+		defer A2.c.Close()
+		establish(A2, B)
+		if trySend(A2, []byte("after-restart")) != nil {
+			bad("C07 peer restarted during a half-open handshake: three reliable round trips do not establish the channel: A' slots %+v B slots %+v", A2.c.VerifSlots(), B.c.VerifSlots())
+		}
+	}
+	// (e) C07 keep-alive in real time: steady traffic must not trigger re-handshakes
+	keepAliveCase := func() {
+		cases++
+		var mu sync.Mutex
+		hellos := 0
+		var A, B *p2pke.Channel
+		mk := func(key int, peer **p2pke.Channel) *p2pke.Channel {
+			return p2pke.NewChannel(p2pke.ChannelConfig{Registry: x509.DefaultRegistry(), PrivateKey: keKeys[key], Logger: zap.NewNop(),
+				AcceptKey: func(*x509.PublicKey) bool { return true },
+				Send: func(b []byte) {
+					if p2pke.IsInitHello(b) {
+						mu.Lock()
+						hellos++
+						mu.Unlock()
+					}
+					m := append([]byte{}, b...)
+					go func() { (*peer).Deliver(nil, m) }()
+				},
+				KeepAliveTimeout: 150 * time.Millisecond, HandshakeBackoff: 20 * time.Millisecond, RekeyAfterTime: time.Hour, RejectAfterTime: time.Hour})
+		}
+		A = mk(0, &B)
+		B = mk(1, &A)
+		defer A.Close()
+		defer B.Close()
+		ctx, cf := context.WithTimeout(context.Background(), 3*time.Second)
+		defer cf()
+		if err := A.Send(ctx, p2p.IOVec{[]byte("first")}); err != nil {
+			bad("C07 first Send did not complete within 3s: %v", err)
+			return
+		}
+		mu.Lock()
+		h0 := hellos
+		mu.Unlock()
+		for i := 0; i < 16; i++ { // 640 ms of traffic in both directions, every 40 ms
+			time.Sleep(40 * time.Millisecond)
+			if err := A.Send(ctx, p2p.IOVec{[]byte("ping")}); err != nil {
+				bad("C07 Send failed under steady traffic: %v", err)
+				return
+			}
+			if err := B.Send(ctx, p2p.IOVec{[]byte("pong")}); err != nil {
+				bad("C07 Send failed under steady traffic: %v", err)
+				return
+			}
+		}
+		mu.Lock()
+		h1 := hellos
+		mu.Unlock()
+		if h1 > h0 {
+			bad("C07 %d new handshakes were started during 640ms of steady authenticated traffic with a 150ms keep-alive timeout", h1-h0)
+		}
+	}
+	for i := 0; i < n; i++ {
+		pairCase()
+		if i%4 == 0 {
+			spoofCase()
+			chanCase()
+			halfOpenCase()
+		}
+	}
+	nk := 1
+	if tier == "thorough" {
+		nk = 5
+	}
+	for i := 0; i < nk; i++ {
+		keepAliveCase()
+	}
+	return cases, fails
 }
